@@ -478,11 +478,14 @@ def c13(seed, n, pool=None, must=None, key='c13', kinds=('struct', 'enum', 'unio
     pool = pool or list(gen.GENS.keys())
     cases = []
     for i in range(n):
-        c = gen.gen_case('%s-%d-%d' % (key, seed, i), 0, pool, want_fault=(i % 10 != 0), must=must, kinds=kinds)
+        # `must` may hold alternatives (tuple): one of them is forced per case (e.g. PartialEq, or Eq standing alone)
+        m1 = [random.Random('%s-must-%d-%d' % (key, seed, i)).choice(list(x)) if isinstance(x, (tuple, list)) else x for x in must] if must else None
+        c = gen.gen_case('%s-%d-%d' % (key, seed, i), 0, pool, want_fault=(i % 10 != 0), must=m1, kinds=kinds)
         cases.append(('%s-%d' % (key, i), c))
     grid = c13_grid() if use_grid else []
     if must:
-        grid = [g for g in grid if any(re.search(r'\b%s\b' % t, g.attrs[0].args) for t in must)]
+        flat_must = [y for x in must for y in (x if isinstance(x, (tuple, list)) else [x])]
+        grid = [g for g in grid if any(re.search(r'\b%s\b' % t, g.attrs[0].args) for t in flat_must)]
     elif n < 20000:
         # quick tier: a seeded third of the grid
         rr = random.Random('c13grid-%d' % seed)
